@@ -15,6 +15,7 @@ import (
 	"go/types"
 	"os"
 	"path/filepath"
+	"runtime"
 	"runtime/debug"
 	"runtime/pprof"
 	"sort"
@@ -74,6 +75,9 @@ type job struct {
 	Args    []string `json:"args"`
 	Merge   []string `json:"merge,omitempty"`   // functions to merge (spdxexp-qualified short names)
 	NoMerge bool     `json:"nomerge,omitempty"` // run without any merging
+	// whole-table harnesses cannot be explored by plain forking: when a merged function turns
+	// out to write shared state the job is inconclusive instead of being retried unmerged
+	NoFallback bool `json:"nofallback,omitempty"`
 }
 
 type vecEntry struct {
@@ -157,6 +161,10 @@ func noteGlobalUse(g *ssa.Global) {
 	}
 }
 func noteGlobalStore(g *ssa.Global) {
+	if inOnce > 0 {
+		onceInits[g.String()] = true
+		return
+	}
 	if !inInit {
 		globalWrites[g.String()] = true
 		if rs != nil && rs.noCheck > 0 {
@@ -165,7 +173,7 @@ func noteGlobalStore(g *ssa.Global) {
 	}
 }
 func noteMapWrite(m *mapVal) {
-	if globalMaps[m] && !inInit {
+	if globalMaps[m] && !inInit && inOnce == 0 {
 		globalWrites["map reachable from a global"] = true
 		if rs != nil && rs.noCheck > 0 {
 			impureMerge("write to a map reachable from a global")
@@ -174,6 +182,7 @@ func noteMapWrite(m *mapVal) {
 }
 
 var globalMaps = map[*mapVal]bool{}
+var onceInits = map[string]bool{}
 
 // static scan: which package-level variables are written outside init?
 func scanMutableGlobals(pkgs []*ssa.Package) {
@@ -509,6 +518,18 @@ func runJob(j job) *jobResult {
 			inconclusive(fmt.Sprintf("path budget %d exhausted", cfg.MaxPaths))
 			break
 		}
+		if res.Paths%64 == 63 {
+			var ms runtime.MemStats
+			runtime.ReadMemStats(&ms)
+			if ms.HeapAlloc > 6<<30 {
+				inconclusive("memory budget (6 GiB) exhausted")
+				break
+			}
+		}
+		if len(top.items) > 2_000_000 {
+			inconclusive("work list budget exhausted")
+			break
+		}
 		it := top.items[len(top.items)-1]
 		top.items = top.items[:len(top.items)-1]
 		wlStack = []*wl{top}
@@ -763,7 +784,8 @@ func main() {
 	cpuprof := flag.String("cpuprofile", "", "write a CPU profile")
 	listFuncs := flag.Bool("funcs", false, "print the functions reachable from the exported API and exit")
 	flag.Parse()
-	debug.SetGCPercent(800)
+	debug.SetGCPercent(400)
+	debug.SetMemoryLimit(3 << 30)
 	if *cpuprof != "" {
 		f, _ := os.Create(*cpuprof)
 		pprof.StartCPUProfile(f)
@@ -803,7 +825,7 @@ func main() {
 			continue
 		}
 		r := runJob(j)
-		for try := 0; try < 4 && len(impureMerged) > 0; try++ {
+		for try := 0; try < 4 && len(impureMerged) > 0 && !j.NoFallback; try++ {
 			// a merged function writes shared state on this tree: explore it by plain forking
 			var keep []string
 			dropped := []string{}
